@@ -135,6 +135,16 @@ class Prop(BaseProp):
                 bb = fsrun.body_after_module_line(open(sp, encoding="utf-8").read())
                 if a is None or a != bb:
                     res.violate("page-differs-from-single-file-run", p, dict(wit, dir_page=a, single_page=bb))
+            # observer faithfulness: the same invocation through the real command line in a fresh interpreter
+            if idx % 120 == 0 and outmode != "nested":
+                import shutil
+                shutil.rmtree(out_abs, ignore_errors=True)
+                rc, so, se = runner.run_cli(argv, cwd=cwd, home=home)
+                res.count("real_cli_runs")
+                got2 = fsrun.files_under(out_abs) if os.path.isdir(out_abs) else set()
+                if rc != 0 or got2 != got:
+                    res.violate("in-process-run-differs-from-real-cli", f"exit {rc}; files only in-process {sorted(got - got2)[:3]}, "
+                                f"only CLI {sorted(got2 - got)[:3]}", wit)
             if idx % 40 == 0:
                 res.sample = {"argv": argv, "tree_files": sorted(tree.files)[:15], "expected_outputs": sorted(want)[:15]}
         return res
